@@ -1,6 +1,6 @@
 (** C09 — StreamOutcome reports exactly what was and was not run. *)
 From FG Require Import Dag Builder Sched DagFacts EdgeFacts RankFacts BuilderFacts TopoFacts AugFacts BuildFacts
-     SchedInv SchedInv2 SafetyFacts CfgFacts SI_Queuer SI_Step SI2_Step SafetyInv OutcomeFacts.
+     SchedInv SchedInv2 SafetyFacts CfgFacts SI_Queuer SI_Step SI2_Step SafetyInv OutcomeFacts CarryOver.
 From Coq Require Import Permutation.
 
 (** Both invariants hold in every reachable state of every call on every built graph. *)
@@ -52,6 +52,30 @@ Proof.
     + split; [discriminate|]. intros [_ Hf]. rewrite Hf in Hperm. apply Permutation_sym, Permutation_nil in Hperm. discriminate.
 Qed.
 Print Assumptions C09_outcome_exact.
+
+(** The same for a call that starts on an InterruptibilityState shared with earlier operations
+    (`reborrow()`): whatever was carried over – a signal already received ([recv]), the polls counted
+    since ([cnt]), signals sent and not yet read ([pend]) – the outcome is exact, the state is
+    Finished iff every function was processed (in particular never "not started"), nothing panics,
+    and everything started has ended when the call returns. *)
+Theorem C09_outcome_exact_on_shared_interruptibility_state : forall cf recv cnt pend evs o,
+  cfg_ok cf -> cfg_ok2 cf ->
+  let s := run_carry cf recv cnt pend evs in
+  result s = Some o -> s_err s = None ->
+  o_processed o = starts (trace s) /\
+  o_not_processed o = filter (fun i => negb (mem i (starts (trace s)))) (seq 0 (c_n cf)) /\
+  (o_finished o = true <-> length (starts (trace s)) = c_n cf) /\
+  (c_api cf = ATryForEach -> c_ctl cf = true ->
+     (o_kind o = KContinue <-> (o_finished o = true /\ failed (trace s) = []))) /\
+  panic s = None /\ (forall x, In x (starts (trace s)) -> In x (ends (trace s))).
+Proof.
+  intros cf recv cnt pend evs o Hok Hok2 s Hres Herr.
+  destruct (carry_outcome_exact cf recv cnt pend Hok Hok2 evs o Hres Herr) as (A & B & C & D).
+  split; [exact A|]. split; [exact B|]. split; [exact C|]. split; [exact D|]. split.
+  - exact (carry_no_panic cf recv cnt pend Hok Hok2 evs).
+  - exact (carry_returns_complete cf recv cnt pend Hok Hok2 evs o Hres).
+Qed.
+Print Assumptions C09_outcome_exact_on_shared_interruptibility_state.
 
 Example C09_example :
   let ops := [AddFn (mkFn 0 [] []); AddFn (mkFn 1 [] []); AddFn (mkFn 2 [] []); AddLogic 0 1; AddLogic 1 2] in
